@@ -13,7 +13,7 @@ HARNESS = os.path.join(VERIF, 'harness')
 CLANG = 'clang++-14'
 CXXFLAGS = ['-std=gnu++20', '-DNDEBUG', '-O1', '-fno-inline', '-fno-vectorize', '-fno-slp-vectorize',
             '-fno-unroll-loops', '-fno-access-control', '-fno-builtin',
-            '-fsanitize=signed-integer-overflow,integer-divide-by-zero,shift,unreachable,return,bounds',
+            '-fsanitize=signed-integer-overflow,integer-divide-by-zero,shift,unreachable,return,bounds,float-cast-overflow',
             '-fsanitize-trap=all', '-Wno-everything']
 
 
@@ -83,7 +83,9 @@ CBMC_BASE = ['cbmc', '--no-standard-checks', '--pointer-check', '--bounds-check'
 
 
 def run_cbmc(cfile, entry, unwind, timeout, extra=(), mem_gb=24, unwindset=()):
-    cmd = CBMC_BASE + ['-I', RT, '-I', os.path.dirname(cfile), cfile, '--function', entry, '--unwind', str(unwind)]
+    # a trace run must not slice: sliced input assignments vanish from the trace and the replayed input sequence shifts
+    base = [a for a in CBMC_BASE if a != '--slice-formula'] if '--trace' in extra else CBMC_BASE
+    cmd = base + ['-I', RT, '-I', os.path.dirname(cfile), cfile, '--function', entry, '--unwind', str(unwind)]
     for u in unwindset:
         cmd += ['--unwindset', u]
     cmd += list(extra)
